@@ -28,6 +28,7 @@ func Begin(fsstate *FsState) *FsTxn {
 			fsstate.Ialloc),
 		inodes: make(map[common.Inum]*inode.Inode),
 	}
+	verifBegin(op)
 	return op
 }
 
@@ -59,6 +60,7 @@ func (op *FsTxn) AllocInode(kind nfstypes.Ftype3) *inode.Inode {
 	var ip *inode.Inode
 	inum := op.Atxn.AllocINum()
 	if inum != common.NULLINUM {
+		verifAlloc(op, inum)
 		ip = op.GetInodeLocked(inum)
 		if ip.Kind != inode.NF3FREE {
 			panic("AllocInode")
@@ -75,11 +77,14 @@ func (op *FsTxn) AllocInode(kind nfstypes.Ftype3) *inode.Inode {
 func (op *FsTxn) ReleaseInode(ip *inode.Inode) {
 	util.DPrintf(1, "ReleaseInode %v\n", ip)
 	op.doneInode(ip)
+	verifRelease(op, ip.Inum)
 	op.Fs.Lockmap.Release(ip.Inum)
 }
 
 func (op *FsTxn) LockInode(inum common.Inum) *cache.Cslot {
+	verifAcquire(op, inum)
 	op.Fs.Lockmap.Acquire(inum)
+	verifAcquired(op, inum)
 	cslot := op.Fs.Icache.LookupSlot(uint64(inum))
 	if cslot == nil {
 		panic("GetInodeLocked")
